@@ -356,7 +356,10 @@ vp_transfer(const char *from, const char *to, int kind) {
   VP_ASSERT(!vp9_is_dir(to) && vp9_in_dir(to) == VP9_BAK, "C20.e files are created in the backup directory only");
   VP_ASSERT(vp9_same_base(from, to), "C20.e a file keeps its name in the backup");
   for (i = 0; i < VP_N; i++) {
-    if (i < dir_n && vp9_same_base(from, dir_name[i])) {
+    /* listed names differ in their slot tag by construction: the tag picks
+       the slot, the whole name must then be that slot's */
+    if (i < dir_n && vp9_tag(from) == i) {
+      VP_ASSERT(vp9_same_base(from, dir_name[i]), "C20.e the file transferred is a listed file, name unchanged");
       VP_ASSERT(g_act[i] == 0, "C20.e each entry is transferred at most once");
       g_act[i] = kind;
       rc = op_rc[i];
@@ -403,7 +406,8 @@ ldb_remove_file(const char *path) {
   VP_ASSERT(bak_lock.held || g_baklock == 0 || baklock_rc != LDB_OK, "clean-up runs before <bak>/LOCK is released");
   VP_ASSERT(g_list_bak == 1 && !g_freed_bak, "names are used while the listing is alive");
   for (i = 0; i < VP_N; i++) {
-    if (vp9_same_base(path, bak_name[i])) {
+    if (vp9_tag(path) == i) {
+      VP_ASSERT(vp9_same_base(path, bak_name[i]), "C20.e the file removed is a file listed in <bak>, name unchanged");
       g_rm[i]++;
       hit = 1;
     }
